@@ -937,9 +937,69 @@ func genDynamic(r *hx.Run, rng *gen.Rng) {
 				w.kids = append(w.kids, mkWidget(rng, shapeT{'F', false, 0}, gen.Pick(rng, []string{"", "field"})))
 			}
 		}
-		emit(dctx{0, 0, gen.Pick(rng, []int{3, 4, 10, 80}), rng.Range(5, 22)}, w)
+		c := dctx{0, 0, gen.Pick(rng, []int{3, 4, 10, 80}), rng.Range(5, 22)}
+		emit(c, w)
 		r.Count("dynamic:long-list-family")
+		// round 3, op `drawzs`: the same list in a *scrolled* state — after a first Draw, a few calls of
+		// the exported API (SetCursor, NextItem, PrevItem, SetPendingScroll) and a second Draw.  No model
+		// (the scroll logic is C19's): the driver evaluates the size / buffer-length oracle on the surfaces.
+		emitScrolled(r, rng, c, w)
+		emitScrolled(r, rng, dctx{0, 0, c.maxW, rng.Range(1, 6)}, w)
 	}
+}
+
+// emitScrolled: op `drawzs mw,mh c|n` with the sizes of every surface of the second Draw.
+func emitScrolled(r *hx.Run, rng *gen.Rng, c dctx, w *wspec) {
+	ctx := vxfw.DrawContext{Max: vxfw.Size{Width: uint16(c.maxW), Height: uint16(c.maxH)}, Characters: vaxis.Characters}
+	d, ok := w.build().(*list.Dynamic)
+	if !ok {
+		return
+	}
+	var s vxfw.Surface
+	var acts []string
+	panicked, _ := hx.Guard(func() {
+		if _, err := d.Draw(ctx); err != nil {
+			return
+		}
+		for k := rng.Range(1, 4); k > 0; k-- {
+			switch rng.Intn(4) {
+			case 0:
+				n := uint(rng.Intn(len(w.kids) + 1))
+				d.SetCursor(n)
+				acts = append(acts, fmt.Sprintf("cursor%d", n))
+			case 1:
+				d.NextItem()
+				acts = append(acts, "next")
+			case 2:
+				d.PrevItem()
+				acts = append(acts, "prev")
+			default:
+				n := rng.Range(-6, 12)
+				d.SetPendingScroll(n)
+				acts = append(acts, fmt.Sprintf("scroll%d", n))
+			}
+		}
+		s, _ = d.Draw(ctx)
+	})
+	cur := "n"
+	if w.cursor {
+		cur = "c"
+	}
+	op := fmt.Sprintf("drawzs %d,%d %s %d %s", c.maxW, c.maxH, cur, w.gap, strings.Join(acts, ","))
+	r.Count("draw:dynamic-scrolled")
+	if panicked {
+		r.Emit(op, "panic:runtime")
+		return
+	}
+	if d.Offset() != 0 {
+		r.Count("dynamic-scrolled:offset!=0")
+	}
+	if len(s.Children) > 0 && s.Children[0].Origin.Row < 0 {
+		r.Count("dynamic-scrolled:first-item-above-the-viewport")
+	}
+	var sb strings.Builder
+	dumpSizes(&sb, &s, 0, 0, 0, 0)
+	r.Emit(op, sb.String())
 }
 
 // ---------------------------------------------------------------------------------------------
